@@ -290,6 +290,7 @@ pub fn run(ctx: &mut Ctx) {
     });
     ctx.require(&r, &["accepted", "DateOutOfRange", "InvalidMonth", "InvalidDay", "InvalidDate"]);
 
+    crate::histpairs::pairwise(ctx, "C01", "date_constructors_and_accessors", crate::histpairs::calls_date());
     // hidden per-thread state: two-step histories from the initial state
     crate::history::two_step_histories(ctx, "C01", crate::history::Family::Accessors);
     crate::history::alternating_with_anchor(ctx, "C01", crate::history::Family::Accessors);
